@@ -67,17 +67,23 @@ class Connection:
     The orientations in the reference fields of a connected line cannot be
     edited in place (as the fields themselves cannot be set).
     """
-    def walk(value):
+    def walk(value, orient = True):
       if isinstance(value, gfapy.OrientedLine):
         if editable:
+          value._unblock_line()
           value._unblock_orient()
         else:
-          value._block_orient()
+          value._block_line()
+          if orient:
+            value._block_orient()
       elif isinstance(value, list):
         for elem in value:
-          walk(elem)
+          walk(elem, orient)
     for k in self.__class__.REFERENCE_FIELDS:
       walk(self._data.get(k))
+    if self.__class__.STORAGE_KEY == "external":
+      # (the Gfa finds the line by the line of its external reference)
+      walk(self._data.get("external"), False)
 
   def _check_not_self_referencing(self):
     """
